@@ -127,7 +127,9 @@ class Instance:
         except TypeError as e:
             if "OptimResults" in str(e):
                 return "input-error"
-            raise
+            return "raised:TypeError"
+        except Exception as e:      # the solver crashed on a well-posed linear problem: a failure of C05, not of the harness
+            return "raised:" + type(e).__name__
 
     def oracle(self):
         """(f*, x*, kkt) of min ||Ax-b||^2 s.t. bounds; kkt = relative violation of the optimality conditions"""
@@ -163,6 +165,8 @@ def check_instance(inst, soln):
     if isinstance(soln, str):
         if soln == "alarm":
             return "fail:C05:no-termination-in-30s", {"what": "dfols.solve did not return within 30 s on a linear problem with the default budget"}
+        if soln.startswith("raised:"):
+            return "fail:C05:solve-raises:" + soln[7:], {"what": "dfols.solve raised %s on a well-posed linear least-squares problem" % soln[7:]}
         return "skip:" + soln, {}
     fstar, xstar, kkt = inst.oracle()
     if kkt > 1e-10:
